@@ -733,6 +733,10 @@ def compare(self, op: str, l: Term, r: Term, st: State, node=None) -> Term:
         if op in ("Is", "Eq"):
             return TRUE
         return FALSE
+    if op in ("Eq", "NotEq") and self.sym_bytes and (l.op == "sbytes" or r.op == "sbytes"):
+        verdict = _sbytes_equal(self, l, r)
+        if verdict is not None:
+            return C(verdict if op == "Eq" else not verdict)
     if op in ("Is", "IsNot"):
         known = _none_status(self, l, st), _none_status(self, r, st)
         if r is NONE and known[0] is not None:
@@ -766,6 +770,37 @@ def compare(self, op: str, l: Term, r: Term, st: State, node=None) -> Term:
                 return v if op == "Eq" else neg(self.truth(v, st))
     self.emit("op", node, st, op=op, args=(l, r), result=None)
     return mk("cmp", op, l, r)
+
+
+def _sbytes_equal(self, l: Term, r: Term):
+    """equality of two byte strings of known length in concrete-control scenarios: True / False when decided, else None.
+    Decided: different lengths; identical terms; a position holding two different constants; and -- only when the scenario
+    enables `mac_axiom` (the property's own MAC assumption) -- an aligned block that is a complete E_k(x) on both sides with
+    different (k, x): block-cipher outputs of different inputs are taken to differ."""
+    li, ri = sb_items(l), sb_items(r)
+    if li is None or ri is None:
+        return None
+    if len(li) != len(ri):
+        return False
+    if all(a is b for a, b in zip(li, ri)):
+        return True
+    for a, b in zip(li, ri):
+        if is_const(a) and is_const(b) and cval(a) != cval(b):
+            return False
+    if getattr(self, "mac_axiom", False):
+        for a, b in zip(li, ri):
+            # a byte replaced by the scenario's tamper symbol differs from whatever stood / is computed there
+            if (a.op == "sym" and a.args[0] == "tamper" and a is not b) or (b.op == "sym" and b.args[0] == "tamper" and a is not b):
+                return False
+        for j in range(0, len(li) - 15, 16):
+            a0, b0 = li[j], ri[j]
+            if a0.op == "aesE" and b0.op == "aesE" and a0.args[2] == 0 and b0.args[2] == 0:
+                ka, kb = (a0.args[0], a0.args[1]), (b0.args[0], b0.args[1])
+                fa = all(x.op == "aesE" and x.args[0] is ka[0] and x.args[1] is ka[1] and x.args[2] == i for i, x in enumerate(li[j:j + 16]))
+                fb = all(x.op == "aesE" and x.args[0] is kb[0] and x.args[1] is kb[1] and x.args[2] == i for i, x in enumerate(ri[j:j + 16]))
+                if fa and fb and not (ka[0] is kb[0] and ka[1] is kb[1]):
+                    return False
+    return None
 
 
 def _none_status(self, t: Term, st: State):
